@@ -38,6 +38,7 @@ var c01Kinds = []c01Kind{
 	{T: decl.TMapSI, Vals: []string{"k:1", "k:2", "j:-3"}},
 	{T: decl.TFunc0},
 	{T: decl.TFuncS, Vals: []string{"val", "a=b"}},
+	{T: decl.TFuncVar, Vals: []string{"val", "a=b"}}, // a variadic callback is handed the one argument of each occurrence
 	{T: decl.TFuncIE, Vals: []string{"5", "-7"}},
 	{T: decl.TUpper, Vals: []string{"val", "a=b"}},
 	{T: decl.TString, Vals: []string{"val"}, Optional: true},
@@ -339,7 +340,7 @@ func init() {
 		Level:      "model_checking",
 		ShardDepth: 2,
 		Body:       body,
-		Rule: "option under test U of 31 kinds (a map[string]int and a []string whose fields hold entries before the parse, a slice of a bool-kinded Unmarshaler, an int with base 0, an Unmarshaler with a value receiver, a func(string) with a default tag, bool, []bool, string, int, uint8, float64, float32, Duration, *string, *int, []string, []int, []*int, map[string]string, map[string]int, " +
+		Rule: "option under test U of 32 kinds (a variadic callback func(...string), a map[string]int and a []string whose fields hold entries before the parse, a slice of a bool-kinded Unmarshaler, an int with base 0, an Unmarshaler with a value receiver, a func(string) with a default tag, bool, []bool, string, int, uint8, float64, float32, Duration, *string, *int, []string, []int, []*int, map[string]string, map[string]int, " +
 			"func(), func(string), func(int) error, Unmarshaler, *Unmarshaler, []Unmarshaler, a bool-kinded Unmarshaler, a slice-kinded Unmarshaler, optional-argument string/int) x 11 placements (parser, subgroup, namespaced, doubly namespaced, command, " +
 			"command's namespaced group, sub-subcommand, shadowing an ancestor's option at two depths, shadowing through an identical namespaced long name, plain group nested in a namespaced group) x namespace delimiter {., ::} x short name {u, é} x {struct tags, AddGroup/AddCommand API, API with the parser's groups added after the commands and after two parses that selected them} " +
 			"x {None, HelpFlag|PassDoubleDash (on three of the placements)} x {fresh parser; on tag-built declarations also: the same parser has already parsed a line that gave U two occurrences and was rejected for an undefined option / the same line without the undefined option, accepted - U then holds what that line left unless it occurs again, in which case it holds only what the new line denotes}; every sequence of <= 3 (quick) / <= 4 (thorough) units over all spellings of U with 1-3 values and with the empty attached value (--name= or -u=), bystander options, command words and a plain word, plus beyond that bound every unit repeated 5, 8, 9, 10, 16, 17 and 33 times; " +
